@@ -63,3 +63,8 @@ claim('C11', 'exploration',
       'Trusted: pysam fetch, pandas. Every read has its sample tags; at most one of XA/NH per read; blacklist regions hold reads entirely or not at all; byValue only with joined features plus at least one other feature; --splitFeatures not generated; tolerance 1e-9.',
       'property-based testing (Hypothesis) against an independent reference implementation (recount)',
       'DESIGN.md section 4, C11')
+claim('C12', 'exploration',
+      'Hypothesis-generated tagged paired-end BAMs with sites on / next to job boundaries and up to max_fragment_size away from their read; obtain_counts(generate_commands(...)) is executed for every bins_per_job in {1,2,3,5,7,all} with a deterministic pool (drawn completion order) or the real pool, with and without key tags and with default arguments, and compared with a brute-force recount and across partitions; get_binned_counts is compared with a recount under its documented default filter.',
+      'Trusted: pysam fetch, multiprocessing. Site within max_fragment_size of the read; paired-end reads with exactly one of read1/read2; no unmapped records.',
+      'property-based testing (Hypothesis): reference recount + metamorphic relation over all job partitions; completion order owned by a deterministic pool',
+      'DESIGN.md section 4, C12')
